@@ -1,4 +1,5 @@
 """C12 no input makes a public entry point panic, abort or hang."""
+import random
 import copy, glob, itertools, json, os, re, subprocess, time
 import vlib
 from vlib import vh_batch
@@ -370,6 +371,28 @@ DIRECTED = [
     "from t | select case []", "from t | select (case [true => 1] | case [true => 2])", "from t | derive x = (from u)", "from (from (from t))", "from t | append (from t | append t)",
     "from t | select `a.b`.`c`", "from `` | select ``", "from t | select `*`", "from t | select this", "from t | select that", "from t | select {this.*, that.*}", "from t | select !{}",
 ]
+
+# clause-order programs: every ordered pair (and the triples around a set operation / a group-take) of the source forms the back end
+# places into SQL clauses - the splitter, the DISTINCT / DISTINCT ON / set-operation rewrites and the clause assembly have an arm
+# (and `unreachable!`s) per combination, and several arms are dialect dependent; compiled for all 12 dialects
+CLAUSE_FORMS = ["take 3", "take 2..4", "sort a", "sort {-b}", "filter a > 1", "derive x = a + 1", "select {a, b}", "group g (take 1)",
+                "group g (sort b | take 1)", "group {a, b} (take 1)", "group g (sort b | take 2)", "append u", "remove u", "intersect u",
+                "aggregate {n = count this}", "group g (aggregate {n = count this})", "join u (==a)",
+                "derive r = row_number this", "group g (derive r = rank b)", "select {a, g}"]
+
+
+def clause_order_programs():
+    out = []
+    for x in CLAUSE_FORMS:
+        for y in CLAUSE_FORMS:
+            out.append(f"from t | select {{a, b, g}} | {x} | {y}")
+    hot = [f for f in CLAUSE_FORMS if f.startswith(("append", "remove", "intersect", "group g (take", "group g (sort", "group {a, b}", "take"))]
+    for x in hot:
+        for y in hot:
+            for z in CLAUSE_FORMS:
+                out.append(f"from t | select {{a, b, g}} | {x} | {y} | {z}")
+    return out
+
 
 # embedded data formats (from_text / read_*): numeric and structural boundary values of the JSON and CSV readers
 def _data_programs():
@@ -938,6 +961,16 @@ def run(ctx):
     for d_ in DIRECTED:
         reqs += src_reqs(d_, "directed")
     ex.run(reqs, "i-directed", timeout=300)
+
+    cop = clause_order_programs()
+    if not thorough:
+        cop = cop[:len(CLAUSE_FORMS) ** 2] + random.Random(1212).sample(cop[len(CLAUSE_FORMS) ** 2:], 700)
+    reqs = []
+    for k, src in enumerate(cop):
+        for d in (DIALECTS if (thorough or k < len(CLAUSE_FORMS) ** 2) else [DIALECTS[k % len(DIALECTS)], "postgres", "mssql"]):
+            reqs += src_reqs(src, "clause-order", ops=[("compile", "prql")], target="sql." + d)
+    ctx.coverage_extra["clause_order_programs"] = {"programs": len(cop), "requests": len(reqs)}
+    ex.run(reqs, "i-clause-order", timeout=600)
 
     # ---- (i-b) byte-offset axis: multi-byte characters at byte offsets 0..12 of every text the compiler inspects ----------
     t0 = time.time()
